@@ -280,6 +280,7 @@ func propC10(w *World, r *Report) {
 	checkWorklist(w, r, e, fns)
 	checkClosureFirst(w, r)
 	RunCodeSpace(w, r)
+	RunSegStep(w, r)
 	// "yields a font ... the subset can be written and read back": no panic on the way
 	r.Rule("panicreach: every explicit panic, unchecked type assertion and call of a function value taken from a map that is reachable from Font.Subset is the default of a type switch over a closed set (all implementers of the switched interface are cases), or a reviewed entry; the three layout subsetters SubsetGsub, SubsetGpos and SubsetGdef are left out: their panics are the explicit not-implemented cases for layout data the subsetter declares unsupported, which the property's domain excludes")
 	pe := mustFuncs(w, r, "(*sfnt.Font).Subset")
@@ -872,7 +873,7 @@ func storesFieldOf(fn *ssa.Function, par *ssa.Parameter, field string, seen map[
 // to retained glyphs — SubsetGpos (kerning and attachment among retained
 // glyphs) and SubsetGdef — must see the final list, so they come after it.
 func checkClosureFirst(w *World, r *Report) {
-	r.Rule("closurefirst: in (*Font).Subset the call of SubsetGsub (which extends the glyph list by the closure under substitutions) precedes the calls of SubsetGpos and SubsetGdef on every path (filtering before the closure drops pairs and classes of glyphs that are added later), and no call that extends the glyph list (SubsetGsub, SubsetGlyf) can follow the call of SubsetCMap")
+	r.Rule("closurefirst: in (*Font).Subset the call of SubsetGsub (which extends the glyph list by the closure under substitutions) precedes the calls of SubsetGpos and SubsetGdef on every path (filtering before the closure drops pairs and classes of glyphs that are added later), and no call that extends the glyph list (SubsetGsub, SubsetGlyf) can follow the call of SubsetCMap, SubsetGpos or SubsetGdef")
 	fn := w.Func("(*sfnt.Font).Subset")
 	if fn == nil {
 		r.Fatal("(*sfnt.Font).Subset does not resolve")
@@ -912,6 +913,28 @@ func checkClosureFirst(w *World, r *Report) {
 			r.OK("closurefirst", key, w.Pos(c.Pos()), "runs on the final glyph list")
 		default:
 			r.Fail("closurefirst", key, w.Pos(c.Pos()), name+" runs before SubsetGsub has added the glyphs produced by retained substitutions: positioning data and classes of those glyphs are dropped from the subset", nil)
+		}
+	}
+	// the composite closure of SubsetGlyf extends the glyph list as well: a kerning pair or a class
+	// of a component that is appended there belongs to a retained glyph
+	if gl := calls["SubsetGlyf"]; gl != nil {
+		for _, name := range []string{"SubsetGpos", "SubsetGdef"} {
+			c := calls[name]
+			if c == nil {
+				continue
+			}
+			key := r.MkKey("closurefirst", fnName(fn), name+" after SubsetGlyf")
+			after := false
+			if c.Block() == gl.Block() {
+				after = before(gl, c)
+			} else {
+				after = !reaches(c.Block(), gl.Block())
+			}
+			if after {
+				r.OK("closurefirst", key, w.Pos(c.Pos()), "runs on the final glyph list")
+			} else {
+				r.FailC("closurefirst", key, []string{"glyf"}, w.Pos(c.Pos()), name+" runs before SubsetGlyf has appended the components of retained composite glyphs: kerning pairs and classes of those glyphs are dropped although the glyphs are in the subset", nil)
+			}
 		}
 	}
 	// the character map is filtered by the final glyph list too: a character of a glyph that the
